@@ -34,7 +34,10 @@ func genKey(t *rapid.T, algs []keys.Alg, label string) KeyRef {
 	a := rapid.SampledFrom(algs).Draw(t, label+"_alg")
 	n := 6
 	if a == keys.RSA {
-		n = keys.RSAPoolSize()
+		n = keys.RSAFast
+		if rapid.IntRange(0, 15).Draw(t, label+"_bigrsa") == 0 {
+			return KeyRef{Alg: a, Idx: rapid.IntRange(keys.RSAFast, keys.RSAPoolSize()-1).Draw(t, label+"_idx")}
+		}
 	}
 	return KeyRef{Alg: a, Idx: rapid.IntRange(0, n-1).Draw(t, label+"_idx")}
 }
